@@ -29,7 +29,7 @@ def rebuild(st):
 
 
 OBSERVED = ["ptm1", "ptm2", "ptm1", "ptm2", "dpspr_zero", "hs", "hrms", "tm01", "tm02", "dm", "dspr", "dp", "dpm", "tp", "oned", "momf", "uss", "crsd",
-            "stats", "stats_limits", "stats_limits", "smooth", "interp", "rotate", "ptm3", "ptm4", "to_energy", "swe", "hmax", "split"]
+            "stats", "stats_limits", "stats_limits", "smooth", "interp", "rotate", "ptm3", "ptm4", "to_energy", "swe", "hmax", "split", "reconstruct"]
 
 
 def observe(obj, obs):
@@ -50,6 +50,16 @@ def observe(obj, obs):
         r = acc.momf(kw["n"])
     elif name == "split":
         r = acc.split(fmin=kw["fmin"], fmax=kw["fmax"])
+    elif name == "reconstruct":
+        # partition_and_reconstruct with its default arguments (jonswap shapes fitted to each partition)
+        from wavespectra.construct import partition_and_reconstruct
+        da = obj["efth"] if isinstance(obj, xr.Dataset) else obj
+        ds_ = da.to_dataset(name="efth")
+        lead_ = [d for d in da.dims if d not in ("freq", "dir")]
+        shp_ = [da.sizes[d] for d in lead_]
+        for k_, v_ in (("wspd", 8.0), ("wdir", 200.0), ("dpt", 50.0)):
+            ds_[k_] = (tuple(lead_), np.full(shp_, v_))
+        r = partition_and_reconstruct(ds_, parts=2)
     elif name == "stats_limits":
         r = acc.stats(["hs", "tm01", "dm"], **kw)
     elif name in ("ptm1", "ptm2"):
